@@ -374,7 +374,17 @@ func facadeCheck(c *fw.Ctx, pc *pdfCase, q request) (verdict, bool) {
 			if q.TM == "layout" && d.CharLevel {
 				ra = atomsOf(stripBlanks(red))
 			}
-			if err == nil && equalStrings(ra, F) {
+			// Only a changed order (or an occurrence the reduced document shows as
+			// well, i.e. a duplicate made by the view itself) is attributed; body
+			// text that disappears is always reported.
+			if err == nil && equalStrings(ra, F) && strings.Contains(v.Class, "deleted-protected") {
+				if d.CharLevel {
+					// words scrambled by the unstable sort of the single-column path
+					// (fixes/C11-5): once that finding is marked fixed this is a violation
+					v.Finding = findingScramble
+					c.Count("scramble_at "+q.API+"/"+q.TM, 1)
+				}
+			} else if err == nil && equalStrings(ra, F) {
 				v.Finding = findingReflow
 				if strings.Contains(v.Class, "not-subsequence") {
 					// what moved: only marginal fragments that stayed, or body text too?
@@ -446,6 +456,7 @@ func equalStrings(a, b []string) bool {
 
 // findingReflow: see /verif/known_findings.d/C11.json
 const findingReflow = "C11-layout-reflow-after-filter"
+const findingScramble = "C11-single-column-unstable-sort"
 
 func docHash(d *docSpec) string {
 	var sb strings.Builder
@@ -467,7 +478,7 @@ func runPDF(c *fw.Ctx, dir string, i int) {
 // C11-layout-reflow-after-filter on every run.
 func runWitness(c *fw.Ctx, dir string) {
 	id := "witness:reflow"
-	if !c.Want(id) {
+	if !c.Want(id) && !c.Want("witness:scramble") {
 		return
 	}
 	// Page 1 carries a unique line in the top-right corner next to the running
@@ -490,7 +501,20 @@ func runWitness(c *fw.Ctx, dir string) {
 		unit{Page: 1, Role: "body", Band: bandBody, X: 72, Y: 100, Size: 11, Text: "island annual copper qwitzaaae"})
 	classify(d)
 	reqs := []request{{Sel: []int{1}, SelHow: "mode-first", Mode: "H", API: "Text", TM: "bycolumn"}}
-	runDoc(c, dir, id, "witness-reflow.pdf", d, func() *rand.Rand { return rand.New(rand.NewSource(1)) }, reqs)
+	if c.Want(id) {
+		runDoc(c, dir, id, "witness-reflow.pdf", d, func() *rand.Rand { return rand.New(rand.NewSource(1)) }, reqs)
+	}
+
+	// witness of C11-single-column-unstable-sort: the same document written one
+	// character per fragment; after filtering page 1 is a single column and the
+	// characters of each line are scrambled.
+	if c.Want("witness:scramble") {
+		d2 := *d
+		d2.CharLevel = true
+		d2.Features = map[string]bool{"witness": true, "page.char-level": true}
+		reqs2 := []request{{Sel: []int{1}, SelHow: "mode-first", Mode: "H", API: "Text", TM: "join"}}
+		runDoc(c, dir, "witness:scramble", "witness-scramble.pdf", &d2, func() *rand.Rand { return rand.New(rand.NewSource(1)) }, reqs2)
+	}
 }
 
 // runDoc evaluates one document: the direct detector and the given facade requests.
